@@ -394,6 +394,74 @@ func TestCheck(t *testing.T) {
 		}
 	}
 
+	// D2. a metadata refresh that gets no answer for longer than the TTL (a broker hanging on the control connection)
+	// must not end the refreshing: a leader move after it is still followed within one TTL
+	s.Begin("leader-move-after-a-stalled-metadata-refresh")
+	for _, nth := range []int{2, 3} {
+		for _, delay := range []time.Duration{ttl + 2*time.Second, 2*ttl + time.Second} {
+			for _, rn := range []string{"produce-t0", "fetch-t0", "listoffsets-span"} {
+				nth, delay, rn := nth, delay, rn
+				id := fmt.Sprintf("%s %v after the move, metadata request #%d stalled", rn, delay, nth)
+				s.Case(id, id, func() (string, *seqx.Viol) {
+					var v *seqx.Viol
+					key := ""
+					br := bub.Run(t, 0, func() {
+						c := mkCluster([3]int{0, 1, 2}, 1, 0, 0)
+						seen := 0
+						c.Script = func(e *fk.Entry) string {
+							if e.Key == protocol.Metadata {
+								seen++
+								if seen == nth {
+									return "stall"
+								}
+							}
+							return ""
+						}
+						cl, tr := newClient(c, 1)
+						defer tr.CloseIdleConnections()
+						var r *req
+						for i := range all {
+							if all[i].name == rn {
+								r = &all[i]
+							}
+						}
+						r.run(ctx, cl)
+						time.Sleep(time.Duration(nth) * (ttl + time.Second)) // refreshes go by, one of them hangs and times out
+						c.Lock()
+						mark := len(c.Journal)
+						stalled := seen >= nth
+						c.Part("t", 0).Leader = 2
+						c.Part("t", 0).Replicas = []int{2}
+						c.Unlock()
+						time.Sleep(delay)
+						err := r.run(ctx, cl)
+						c.Lock()
+						defer c.Unlock()
+						var got []int
+						for _, e := range c.Journal[mark:] {
+							if e.Key == r.key {
+								got = append(got, e.Broker)
+							}
+						}
+						key = fmt.Sprintf("%v:%v:stalled=%v", got, err == nil, stalled)
+						for _, b := range got {
+							if b == 0 {
+								v = &seqx.Viol{Sig: "stale-leader-after-stalled-refresh", Msg: fmt.Sprintf("%s issued %v after the leader of t/0 moved from broker 0 to broker 2 (metadata TTL %v, an earlier refresh had hung) still went to broker 0 (%v)", rn, delay, ttl, got)}
+							}
+						}
+						if err != nil && v == nil {
+							v = &seqx.Viol{Sig: "failed-after-stalled-refresh", Msg: fmt.Sprintf("%s issued %v after the move failed: %v", rn, delay, err)}
+						}
+					})
+					if br.Panic != "" {
+						return "panic", &seqx.Viol{Sig: "panic", Msg: br.Panic}
+					}
+					return key, v
+				})
+			}
+		}
+	}
+
 	// E. a broker comes back on another address (same host, other port) while its old address is taken over by a
 	// new broker: after one metadata TTL the requests designated for it must reach it, not the old address
 	s.Begin("broker-address-change-followed-within-ttl")
